@@ -1724,7 +1724,6 @@ pub fn raw_lzma_decoder_new_reset() {
     match r {
         Ok(mut dec) => {
             vassert!(dict != 0, "raw decoder: a zero dictionary size is not accepted by the constructor");
-            vassert!(dec.memlimit == if ml_some { ml } else { usize::MAX }, "raw decoder: memlimit None means unlimited");
             vassert!(dec.params.dict_size == dict, "raw decoder: dictionary size kept");
             vassert!(dec.state.unpacked_size == params.unpacked_size, "raw decoder: initial expected size");
             let mode = t.u8() % 3;
@@ -1763,18 +1762,19 @@ pub fn raw_lzma_decoder_new_reset() {
 #[cfg_attr(kani, kani::stub(std::io::Error::is_interrupted, crate::verif_common::stub_not_interrupted))]
 #[cfg_attr(kani, kani::stub(crate::decode::lzma::DecoderState::process_next_inner, crate::decode::lzma::verif_h::abs_symbol))]
 #[cfg_attr(kani, kani::stub(crate::decode::lzbuffer::LzCircularBuffer::from_stream, crate::decode::lzbuffer::verif_h::circ_from_stream_with_capacity))]
+#[cfg_attr(kani, kani::stub(crate::decode::lzma::DecoderState::new, crate::decode::lzma::verif_h::new_scripted_from_statics))]
 pub fn raw_lzma_decompress_memlimit() {
     let mut t = Tape::<32>::new();
     let f = [t.u8(), t.u8(), t.u8(), t.u8(), t.u8(), t.u8(), t.u8(), 0xEE];
     let ml = t.usize();
     let dict = t.u32();
     assume(dict >= 2);
-    let mut st = light_state::<0>(LzmaProperties { lc: 0, lp: 0, pb: 0 }, Some(1));
-    set_script(&mut st, [script(2, K_LIT), script(20, K_LIT), script(20, K_LIT), script(20, K_LIT)]);
-    let mut dec = LzmaDecoder {
-        params: LzmaParams { properties: LzmaProperties { lc: 0, lp: 0, pb: 0 }, dict_size: dict, unpacked_size: Some(1) },
-        memlimit: ml,
-        state: st,
+    let mut dec = match mk_raw_decoder(dict as u32, Some(1), Some(ml), [script(2, K_LIT), script(20, K_LIT), script(20, K_LIT), script(20, K_LIT)]) {
+        Some(d) => d,
+        None => {
+            vassert!(false, "raw decoder: the constructor accepts these parameters");
+            return;
+        }
     };
     let mut rd = ArrReader::<8>::new(f, 8);
     let mut sink = RecSink::<4>::new();
@@ -1802,17 +1802,18 @@ pub fn raw_lzma_decompress_memlimit() {
 #[cfg_attr(kani, kani::stub(std::io::Error::is_interrupted, crate::verif_common::stub_not_interrupted))]
 #[cfg_attr(kani, kani::stub(crate::decode::lzma::DecoderState::process_next_inner, crate::decode::lzma::verif_h::abs_symbol))]
 #[cfg_attr(kani, kani::stub(crate::decode::lzbuffer::LzCircularBuffer::from_stream, crate::decode::lzbuffer::verif_h::circ_from_stream_with_capacity))]
+#[cfg_attr(kani, kani::stub(crate::decode::lzma::DecoderState::new, crate::decode::lzma::verif_h::new_scripted_from_statics))]
 pub fn raw_lzma_decompress_position() {
     let mut t = Tape::<32>::new();
     let f = [t.u8(), t.u8(), t.u8(), t.u8(), t.u8(), t.u8(), t.u8(), 0xEE, 0xEE];
     let one = t.bool();
     let size = if one { 1u64 } else { 0u64 };
-    let mut st = light_state::<0>(LzmaProperties { lc: 0, lp: 0, pb: 0 }, Some(size));
-    set_script(&mut st, [script(2, K_LIT), script(20, K_LIT), script(20, K_LIT), script(20, K_LIT)]);
-    let mut dec = LzmaDecoder {
-        params: LzmaParams { properties: LzmaProperties { lc: 0, lp: 0, pb: 0 }, dict_size: 0x1000, unpacked_size: Some(size) },
-        memlimit: usize::MAX,
-        state: st,
+    let mut dec = match mk_raw_decoder(0x1000 as u32, Some(size), None, [script(2, K_LIT), script(20, K_LIT), script(20, K_LIT), script(20, K_LIT)]) {
+        Some(d) => d,
+        None => {
+            vassert!(false, "raw decoder: the constructor accepts these parameters");
+            return;
+        }
     };
     let mut rd = ArrReader::<9>::new(f, 9);
     let mut sink = CountSink::new();
@@ -1844,6 +1845,7 @@ pub fn sym_conformance_allprops() {
 #[cfg_attr(kani, kani::stub(std::io::Error::is_interrupted, crate::verif_common::stub_not_interrupted))]
 #[cfg_attr(kani, kani::stub(crate::decode::lzma::DecoderState::process_next_inner, crate::decode::lzma::verif_h::abs_symbol))]
 #[cfg_attr(kani, kani::stub(crate::decode::lzbuffer::LzCircularBuffer::from_stream, crate::decode::lzbuffer::verif_h::circ_from_stream_with_capacity))]
+#[cfg_attr(kani, kani::stub(crate::decode::lzma::DecoderState::new, crate::decode::lzma::verif_h::new_scripted_from_statics))]
 pub fn raw_lzma_decompress_sink_fails_at_wrap() {
     decompress_wrap::<true>()
 }
@@ -1855,6 +1857,7 @@ pub fn raw_lzma_decompress_sink_fails_at_wrap() {
 #[cfg_attr(kani, kani::stub(std::io::Error::is_interrupted, crate::verif_common::stub_not_interrupted))]
 #[cfg_attr(kani, kani::stub(crate::decode::lzma::DecoderState::process_next_inner, crate::decode::lzma::verif_h::abs_symbol))]
 #[cfg_attr(kani, kani::stub(crate::decode::lzbuffer::LzCircularBuffer::from_stream, crate::decode::lzbuffer::verif_h::circ_from_stream_with_capacity))]
+#[cfg_attr(kani, kani::stub(crate::decode::lzma::DecoderState::new, crate::decode::lzma::verif_h::new_scripted_from_statics))]
 pub fn raw_lzma_decompress_across_wrap() {
     decompress_wrap::<false>()
 }
@@ -1863,12 +1866,12 @@ fn decompress_wrap<const FAIL: bool>() {
     let mut t = Tape::<32>::new();
     let f = [t.u8(), t.u8(), t.u8(), t.u8(), t.u8(), t.u8(), t.u8(), t.u8()];
     let fail = FAIL;
-    let mut st = light_state::<0>(LzmaProperties { lc: 0, lp: 0, pb: 0 }, Some(3));
-    set_script(&mut st, [script(1, K_LIT), script(1, K_LIT), script(1, K_LIT), script(20, K_LIT)]);
-    let mut dec = LzmaDecoder {
-        params: LzmaParams { properties: LzmaProperties { lc: 0, lp: 0, pb: 0 }, dict_size: 2, unpacked_size: Some(3) },
-        memlimit: usize::MAX,
-        state: st,
+    let mut dec = match mk_raw_decoder(2 as u32, Some(3), None, [script(1, K_LIT), script(1, K_LIT), script(1, K_LIT), script(20, K_LIT)]) {
+        Some(d) => d,
+        None => {
+            vassert!(false, "raw decoder: the constructor accepts these parameters");
+            return;
+        }
     };
     let mut rd = ArrReader::<8>::new(f, 8);
     let mut sink = if fail { RecSink::<8>::failing(0) } else { RecSink::<8>::new() };
@@ -3286,16 +3289,17 @@ pub fn sym_conformance_lc0() {
 #[cfg_attr(kani, kani::stub(crate::decode::lzma::DecoderState::process_next_inner, crate::decode::lzma::verif_h::abs_symbol))]
 #[cfg_attr(kani, kani::stub(crate::decode::lzma::DecoderState::reset_state, crate::decode::lzma::verif_h::observing_reset_state_lzma))]
 #[cfg_attr(kani, kani::stub(crate::decode::lzbuffer::LzCircularBuffer::from_stream, crate::decode::lzbuffer::verif_h::circ_from_stream_with_capacity))]
+#[cfg_attr(kani, kani::stub(crate::decode::lzma::DecoderState::new, crate::decode::lzma::verif_h::new_scripted_from_statics))]
 pub fn raw_lzma_decompress_twice_limit() {
     let mut t = Tape::<32>::new();
     let f1 = [t.u8(), t.u8(), t.u8(), t.u8(), t.u8(), t.u8(), t.u8(), 0xEE];
     let f2 = [t.u8(), t.u8(), t.u8(), t.u8(), t.u8(), t.u8(), t.u8(), 0xEE];
-    let mut st = light_state::<0>(LzmaProperties { lc: 0, lp: 0, pb: 0 }, Some(1));
-    set_script(&mut st, [script(2, K_LIT), script(2, K_LIT), script(20, K_LIT), script(20, K_LIT)]);
-    let mut dec = LzmaDecoder {
-        params: LzmaParams { properties: LzmaProperties { lc: 0, lp: 0, pb: 0 }, dict_size: 0x1000, unpacked_size: Some(1) },
-        memlimit: 0,
-        state: st,
+    let mut dec = match mk_raw_decoder(0x1000 as u32, Some(1), Some(0), [script(2, K_LIT), script(2, K_LIT), script(20, K_LIT), script(20, K_LIT)]) {
+        Some(d) => d,
+        None => {
+            vassert!(false, "raw decoder: the constructor accepts these parameters");
+            return;
+        }
     };
     let mut rd1 = ArrReader::<8>::new(f1, 8);
     let mut sink1 = CountSink::new();
@@ -3360,5 +3364,38 @@ impl DecoderState {
             };
         }
         Ok(())
+    }
+}
+
+
+// ----- DecoderState::new stand-in whose abstract-symbol script comes from statics -----
+pub static NEW_SCRIPT0: std::sync::atomic::AtomicUsize = std::sync::atomic::AtomicUsize::new(0);
+pub static NEW_SCRIPT1: std::sync::atomic::AtomicUsize = std::sync::atomic::AtomicUsize::new(0);
+pub static NEW_SCRIPT2: std::sync::atomic::AtomicUsize = std::sync::atomic::AtomicUsize::new(0);
+pub static NEW_SCRIPT3: std::sync::atomic::AtomicUsize = std::sync::atomic::AtomicUsize::new(0);
+pub fn set_new_script(sc: [usize; 4]) {
+    use std::sync::atomic::Ordering::Relaxed;
+    NEW_SCRIPT0.store(sc[0], Relaxed);
+    NEW_SCRIPT1.store(sc[1], Relaxed);
+    NEW_SCRIPT2.store(sc[2], Relaxed);
+    NEW_SCRIPT3.store(sc[3], Relaxed);
+}
+pub fn new_scripted_from_statics(props: LzmaProperties, size: Option<u64>) -> DecoderState {
+    use std::sync::atomic::Ordering::Relaxed;
+    let mut d = light_state::<0>(props, size);
+    set_script(&mut d, [NEW_SCRIPT0.load(Relaxed), NEW_SCRIPT1.load(Relaxed), NEW_SCRIPT2.load(Relaxed), NEW_SCRIPT3.load(Relaxed)]);
+    d
+}
+/// raw decoder through its public constructor (no struct literal: the harness must keep
+/// compiling when private fields change type), DecoderState::new stubbed by the function above
+pub fn mk_raw_decoder(dict: u32, size: Option<u64>, memlimit: Option<usize>, sc: [usize; 4]) -> Option<LzmaDecoder> {
+    set_new_script(sc);
+    let params = LzmaParams { properties: LzmaProperties { lc: 0, lp: 0, pb: 0 }, dict_size: dict, unpacked_size: size };
+    match LzmaDecoder::new(params, memlimit) {
+        Ok(d) => Some(d),
+        Err(e) => {
+            forget(e);
+            None
+        }
     }
 }
